@@ -44,7 +44,8 @@ func (r *Replica) ZZSetMode(m types.Mode) { r.mode = m }
 func (r *Replica) ZZHead() string         { return r.info.Head }
 
 // ZZServer: a replica server over the directory model in one of the six states
-// (initial, closed, open, dirty, rebuilding, error), with `snaps` snapshots.
+// (initial, closed, open, dirty, rebuilding, error - plus closed with the rebuilding
+// marker or the dirty flag left in volume.meta), with `snaps` snapshots.
 func ZZServer(state string, snaps int) (*Server, *zzfs.FS) {
 	fs := zzInstallFS()
 	ActionChannel = make(chan string, 5)
@@ -56,6 +57,16 @@ func ZZServer(state string, snaps int) (*Server, *zzfs.FS) {
 	switch state {
 	case "closed":
 		r.Close()
+	case "closed-rebuilding":
+		// closed while a rebuild was in progress (AutoConfigureReplica closes a replica that
+		// is still rebuilding before it registers again): volume.meta keeps the marker
+		r.SetRebuilding(true)
+		r.Close()
+	case "closed-dirty":
+		// the process died with the volume dirty: nothing is attached after the restart
+		r.info.Dirty = true
+		r.encodeToFile(&r.info, volumeMetaData)
+		fs.Revive()
 	case "error":
 		r.Close()
 		fs.Entries[volumeMetaData].Valid = false
